@@ -271,7 +271,7 @@ func view(log []fakeredis.Event) wireView {
 func runScenario(t *testing.T, run *mon.Run, sc scenario) {
 	rng := rand.New(rand.NewSource(sc.seed))
 	s := fakeredis.New(fakeredis.Options{Seed: sc.seed}, addr)
-	defer s.Close()
+	defer func() { await(time.Hour, s.Close) }()
 	node := s.Node(addr)
 	keys := []string{"a", "b", "c", "d", "e"}
 	for _, k := range keys {
@@ -299,8 +299,14 @@ func runScenario(t *testing.T, run *mon.Run, sc scenario) {
 		run.Inconclusive("client setup failed: " + err.Error())
 		return
 	}
-	defer client.Close()
+	defer func() { await(time.Hour, client.Close) }()
 	bg := context.Background()
+	// the bubble's main goroutine never blocks for ever on the client: every wait is bounded in virtual time, which can
+	// only run out when all goroutines are durably blocked (there are no periodic timers here)
+	hung := func(what string) {
+		stacks := bubbleStacks()
+		run.Violation("hang", fmt.Sprintf("%s/%s/%s", sc.store, sc.shape, sc.mode), map[string]any{"scenario": sc.String(), "what": what, "rueidis_frames": drv.RueidisFrames(stacks), "stacks": drv.Tail(stacks, 12000)})
+	}
 
 	violation := func(class, key string, w map[string]any) {
 		w["scenario"] = sc.String()
@@ -311,7 +317,10 @@ func runScenario(t *testing.T, run *mon.Run, sc scenario) {
 	hit := map[ident]bool{}
 	if sc.prepop {
 		pre := &call{kind: kGet, ids: []ident{{key: "d"}}}
-		doCall(bg, client, pre)
+		if !await(time.Hour, func() { doCall(bg, client, pre) }) {
+			hung("warm-up read never returned")
+			return
+		}
 		if pre.errs[0] != nil || pre.vals[0] != val("d") {
 			run.Inconclusive("prepopulation failed")
 			return
@@ -416,7 +425,7 @@ func runScenario(t *testing.T, run *mon.Run, sc scenario) {
 		if s.RuleFired(stall) != 1 {
 			run.Inconclusive("the first fetch never reached the server")
 			s.Resume()
-			wg.Wait()
+			await(time.Hour, wg.Wait)
 			return
 		}
 		for _, c := range calls[1:] {
@@ -431,7 +440,7 @@ func runScenario(t *testing.T, run *mon.Run, sc scenario) {
 	if s.RuleFired(stall) != 1 {
 		run.Inconclusive("the first fetch never reached the server")
 		s.Resume()
-		wg.Wait()
+		await(time.Hour, wg.Wait)
 		return
 	}
 	for _, c := range calls {
@@ -455,7 +464,16 @@ func runScenario(t *testing.T, run *mon.Run, sc scenario) {
 	default:
 		s.Resume()
 	}
-	wg.Wait()
+	if !await(time.Hour, wg.Wait) {
+		var stuck []string
+		for _, c := range calls {
+			if c.done == 0 {
+				stuck = append(stuck, c.String())
+			}
+		}
+		hung(fmt.Sprintf("after the held request was released / failed (%s) these calls never returned: %v", sc.mode, stuck))
+		return
+	}
 	synctest.Wait()
 
 	// ---- evaluate the window from the server's log
@@ -614,7 +632,10 @@ func runScenario(t *testing.T, run *mon.Run, sc scenario) {
 	for _, id := range again {
 		before := view(s.Log()[start:]).requests[id]
 		c := &call{kind: kGet, ids: []ident{id}, static: sc.static && sc.shape != sMGetOverlp}
-		doCall(bg, client, c)
+		if !await(time.Hour, func() { doCall(bg, client, c) }) {
+			hung("read after the failure never returned: " + c.String())
+			return
+		}
 		synctest.Wait()
 		after := view(s.Log()[start:]).requests[id]
 		w0 := map[string]any{"ident": id.String(), "requests_before": before, "requests_after": after, "got_val": c.vals[0], "got_err": fmt.Sprint(c.errs[0]), "failed_by": sc.mode}
